@@ -13,14 +13,34 @@ use serde_json::json;
 use std::sync::atomic::{AtomicU32, Ordering};
 use std::time::{Duration, Instant};
 
-const SIGS: [(Signal, i32); 6] = [
+/// every catchable signal a history may use (not SIGCONT: generating it discards pending stop signals; not
+/// SIGTTOU: the application's own; not the synchronous ones). A history works on a window of six of them.
+const POOL: [(Signal, i32); 16] = [
     (Signal::SIGUSR1, libc::SIGUSR1),
     (Signal::SIGUSR2, libc::SIGUSR2),
     (Signal::SIGWINCH, libc::SIGWINCH),
     (Signal::SIGURG, libc::SIGURG),
     (Signal::SIGCHLD, libc::SIGCHLD),
     (Signal::SIGHUP, libc::SIGHUP),
+    (Signal::SIGTSTP, libc::SIGTSTP),
+    (Signal::SIGTTIN, libc::SIGTTIN),
+    (Signal::SIGALRM, libc::SIGALRM),
+    (Signal::SIGVTALRM, libc::SIGVTALRM),
+    (Signal::SIGPROF, libc::SIGPROF),
+    (Signal::SIGIO, libc::SIGIO),
+    (Signal::SIGPIPE, libc::SIGPIPE),
+    (Signal::SIGTERM, libc::SIGTERM),
+    (Signal::SIGINT, libc::SIGINT),
+    (Signal::SIGQUIT, libc::SIGQUIT),
 ];
+
+static BASE: std::sync::atomic::AtomicUsize = std::sync::atomic::AtomicUsize::new(0);
+
+/// the six signals of the current history (window `base` of the pool; base 0 = USR1 USR2 WINCH URG CHLD HUP)
+fn sigs() -> [(Signal, i32); 6] {
+    let b = BASE.load(Ordering::SeqCst);
+    std::array::from_fn(|i| POOL[(b + i) % POOL.len()])
+}
 
 static COUNTS: [AtomicU32; 65] = [const { AtomicU32::new(0) }; 65];
 
@@ -31,7 +51,7 @@ extern "C" fn on_sig(sig: libc::c_int) {
 }
 
 fn install_handlers() {
-    for (_, n) in SIGS {
+    for (_, n) in POOL {
         unsafe {
             let mut sa: libc::sigaction = std::mem::zeroed();
             sa.sa_sigaction = on_sig as *const () as usize;
@@ -47,7 +67,7 @@ fn blocked_mask() -> u8 {
     unsafe {
         let mut cur: libc::sigset_t = std::mem::zeroed();
         libc::pthread_sigmask(libc::SIG_BLOCK, std::ptr::null(), &mut cur);
-        for (i, (_, n)) in SIGS.iter().enumerate() {
+        for (i, (_, n)) in sigs().iter().enumerate() {
             if libc::sigismember(&cur, *n) == 1 {
                 m |= 1 << i;
             }
@@ -61,7 +81,7 @@ fn pending_mask() -> u8 {
     unsafe {
         let mut cur: libc::sigset_t = std::mem::zeroed();
         libc::sigpending(&mut cur);
-        for (i, (_, n)) in SIGS.iter().enumerate() {
+        for (i, (_, n)) in sigs().iter().enumerate() {
             if libc::sigismember(&cur, *n) == 1 {
                 m |= 1 << i;
             }
@@ -94,7 +114,7 @@ fn unblock_all() {
     unsafe {
         let mut set: libc::sigset_t = std::mem::zeroed();
         libc::sigemptyset(&mut set);
-        for (_, n) in SIGS {
+        for (_, n) in POOL {
             libc::sigaddset(&mut set, n);
         }
         libc::pthread_sigmask(libc::SIG_UNBLOCK, &set, std::ptr::null_mut());
@@ -102,7 +122,7 @@ fn unblock_all() {
 }
 
 fn sigs_of(mask: u8) -> Vec<Signal> {
-    SIGS.iter().enumerate().filter(|(i, _)| mask & (1 << i) != 0).map(|(_, s)| s.0).collect()
+    sigs().iter().enumerate().filter(|(i, _)| mask & (1 << i) != 0).map(|(_, s)| s.0).collect()
 }
 
 #[derive(Clone, Copy, Debug, PartialEq, Eq, Serialize, Deserialize)]
@@ -208,10 +228,10 @@ fn run_history(ops: &[SOp], nsig: usize, with_app: bool) -> Outcome {
             SOp::Raise(i, n) => {
                 let i = i as usize % nsig;
                 let n = (n % 3) + 1;
-                desc = format!("Raise({:?} x{})", SIGS[i].0, n);
+                desc = format!("Raise({:?} x{})", sigs()[i].0, n);
                 for _ in 0..n {
                     unsafe {
-                        libc::kill(libc::getpid(), SIGS[i].1);
+                        libc::kill(libc::getpid(), sigs()[i].1);
                     }
                 }
                 if configured & (1 << i) != 0 {
@@ -230,21 +250,21 @@ fn run_history(ops: &[SOp], nsig: usize, with_app: bool) -> Outcome {
                 let mut seen: u8 = 0;
                 for (signo, p, u) in &acc {
                     out.reported += 1;
-                    let idx = SIGS.iter().position(|s| s.1 == *signo);
+                    let idx = sigs().iter().position(|s| s.1 == *signo);
                     match idx {
                         None => alarm(&mut out, "reported_once", "unknown-signal-reported", format!("signal {} reported", signo)),
                         Some(i) => {
                             if seen & (1 << i) != 0 {
-                                alarm(&mut out, "reported_once", "signal-reported-twice", format!("{:?} reported twice in one dispatch", SIGS[i].0));
+                                alarm(&mut out, "reported_once", "signal-reported-twice", format!("{:?} reported twice in one dispatch", sigs()[i].0));
                             }
                             seen |= 1 << i;
                             if configured & (1 << i) == 0 {
-                                alarm(&mut out, "unconfigured_untouched", "unconfigured-signal-reported", format!("{:?} is not configured but was reported", SIGS[i].0));
+                                alarm(&mut out, "unconfigured_untouched", "unconfigured-signal-reported", format!("{:?} is not configured but was reported", sigs()[i].0));
                             } else if pending & (1 << i) == 0 {
-                                alarm(&mut out, "reported_once", "signal-reported-without-being-raised", format!("{:?} reported although no instance was pending", SIGS[i].0));
+                                alarm(&mut out, "reported_once", "signal-reported-without-being-raised", format!("{:?} reported although no instance was pending", sigs()[i].0));
                             }
                             if *p != pid || *u != uid {
-                                alarm(&mut out, "reported_once", "wrong-sender-info", format!("{:?} reported with pid {} uid {} (expected {} {})", SIGS[i].0, p, u, pid, uid));
+                                alarm(&mut out, "reported_once", "wrong-sender-info", format!("{:?} reported with pid {} uid {} (expected {} {})", sigs()[i].0, p, u, pid, uid));
                             }
                         }
                     }
@@ -290,13 +310,13 @@ fn run_history(ops: &[SOp], nsig: usize, with_app: bool) -> Outcome {
             alarm(&mut out, "mask_exact", "application-blocked-signal-unblocked", format!("after {}: a signal the application had blocked itself (never configured in the source) is no longer blocked", desc));
         }
         for i in 0..nsig {
-            let got = COUNTS[SIGS[i].1 as usize].load(Ordering::SeqCst);
+            let got = COUNTS[sigs()[i].1 as usize].load(Ordering::SeqCst);
             if got > handler_max[i] {
                 let still = configured & (1 << i) != 0 && before_cfg & (1 << i) != 0;
                 let (cl, cu) = if still { ("handler_never_for_configured", "configured-signal-delivered-to-handler") } else { ("unconfigured_untouched", "handler-ran-too-often") };
-                alarm(&mut out, cl, cu, format!("after {}: the process handler of {:?} ran {} times, at most {} expected (configured before {}, after {})", desc, SIGS[i].0, got, handler_max[i], before_cfg & (1 << i) != 0, configured & (1 << i) != 0));
+                alarm(&mut out, cl, cu, format!("after {}: the process handler of {:?} ran {} times, at most {} expected (configured before {}, after {})", desc, sigs()[i].0, got, handler_max[i], before_cfg & (1 << i) != 0, configured & (1 << i) != 0));
             } else if got < handler_min[i] {
-                alarm(&mut out, "unconfigured_untouched", "unconfigured-signal-swallowed", format!("after {}: the process handler of {:?} ran {} times, at least {} expected", desc, SIGS[i].0, got, handler_min[i]));
+                alarm(&mut out, "unconfigured_untouched", "unconfigured-signal-swallowed", format!("after {}: the process handler of {:?} ran {} times, at least {} expected", desc, sigs()[i].0, got, handler_min[i]));
             }
             // follow the observation inside the allowed range
             handler_min[i] = handler_min[i].max(got.min(handler_max[i]));
@@ -383,6 +403,7 @@ fn main() {
         let ops: Vec<SOp> = serde_json::from_value(v["replay"]["ops"].clone()).expect("ops");
         let nsig = v["replay"]["nsig"].as_u64().unwrap_or(6) as usize;
         let with_app = v["replay"]["app_blocked_signal"].as_bool().unwrap_or(false);
+        BASE.store(v["replay"]["window"].as_u64().unwrap_or(0) as usize, Ordering::SeqCst);
         println!("replaying {:?} (application-blocked signal: {})", ops, with_app);
         let o = run_history(&ops, nsig, with_app);
         for a in &o.alarms {
@@ -405,6 +426,10 @@ fn main() {
         let mut rng = Rng::derive(args.seed, case, 19);
         let (nsig, len) = if case % 3 == 0 { (3, rng.range(1, 5) as usize) } else { (6, rng.range(2, 12) as usize) };
         let ops = gen_history(&mut rng, nsig, len);
+        // two histories in three work on USR1 USR2 WINCH URG CHLD HUP, the third on another window of the pool
+        let window = if case % 3 == 2 { (case / 3) as usize % POOL.len() } else { 0 };
+        BASE.store(window, Ordering::SeqCst);
+        res.cov(&format!("window-starts-at:{:?}", POOL[window].0), 1);
         if i % 256 == 0 {
             mark_case(&args.out, case, "sig");
         }
@@ -418,7 +443,7 @@ fn main() {
             res.classes.insert(o.class);
         }
         if res.samples.len() < 2 && o.reported > 0 && o.alarms.is_empty() {
-            res.samples.push(json!({"case": case, "nsig": nsig, "ops": ops, "signals_reported": o.reported}));
+            res.samples.push(json!({"case": case, "nsig": nsig, "window": window, "ops": ops, "signals_reported": o.reported}));
         }
         if let Some(a) = o.alarms.first() {
             let sig = format!("{}/{}", a.clause, a.culprit);
@@ -432,8 +457,8 @@ fn main() {
                     prop: args.prop.clone(),
                     clause: a2.clause.clone(),
                     culprit: a2.culprit.clone(),
-                    detail: format!("{} [case {}, history {:?}]", a2.detail, case, small),
-                    replay: json!({"engine": "sig", "nsig": nsig, "ops": small, "app_blocked_signal": with_app}),
+                    detail: format!("{} [case {}, signals {:?}, history {:?}]", a2.detail, case, sigs().iter().take(nsig).map(|s| s.0).collect::<Vec<_>>(), small),
+                    replay: json!({"engine": "sig", "nsig": nsig, "ops": small, "app_blocked_signal": with_app, "window": window}),
                 });
             }
         }
